@@ -316,6 +316,10 @@ def corpus():
                        add(mul(powi(sub(P(0), C(0.5)), 2), add(C(1.0), mul(C(1.0), P(1)))), powi(sub(P(2), C(1.5)), 2))))
     L.append(line_sgd(0.25, 0.5, False, [3.0, -1.0], range(1, 13), sepquad([2.0, 2.0], [1.25, 0.5])))
     L.append(line_sgd(0.25, 0.5, True, [3.0, -1.0], range(1, 13), sepquad([2.0, 1.0], [1.25, 0.5])))
+    # past oracle false alarms, kept as regressions: noise-free linear fit converged to rss ~ 1e-21 (covariance
+    # tolerance must account for the rounding of y - f), and g^2 overflowing f64 (v = inf, step 0, stop)
+    L.append('lm 3ddb7cdfd9d7bdbb 3d719799812dea11 3f847ae147ae147b 2 401299999999999a 4037dc28f5c28f5c 6 3fc20c49ba5e353f 3fe30a3d70a3d70a 3fe753f7ced91687 3febef9db22d0e56 3ffad916872b020c 3ffe5e353f7ced91 3fe74fdf3b645a1d 3fa851eb851eb852 bfc3a5e353f7ced9 bfd7a5e353f7ced9 bff93b645a1cac08 bffe83126e978d50 1 400 7 p0 c3ff0000000000000 mul x p1 mul add')
+    L.append('adam 3fb2bc419fe72c3b 3fd7278b90d99d13 3fd50b4f1fcea930 3f50624dd2f1a9fc 3 bfbeb851eb851eb8 3fc851eb851eb852 bff851eb851eb852 100 1 2 3 4 5 6 7 8 9 10 11 12 13 14 15 16 17 18 19 20 21 22 23 24 25 26 27 28 29 30 31 32 33 34 35 36 37 38 39 40 41 42 43 44 45 46 47 48 49 50 51 52 53 54 55 56 57 58 59 60 61 62 63 64 65 66 67 68 69 70 71 72 73 74 75 76 77 78 79 80 81 82 83 84 85 86 87 88 89 90 91 92 93 94 95 96 97 98 99 100 12 p0 exp exp c3fe2e147ae147ae1 sin mul cbff8cccccccccccd c400c666666666666 neg sin div mul')
     # Adam::new rejects beta <= 0
     L.append(line_adam(0.1, 0.0, 0.999, 1e-8, [1.0], [1], sq))
     L.append(line_adam(0.1, 0.9, -0.5, 1e-8, [1.0], [1], sq))
